@@ -22,6 +22,89 @@ def run(ctx):
     _r2(ctx)
     _r4(ctx)
     _r5(ctx, cg)
+    _r6(ctx, cg)
+    _r7(ctx)
+
+
+def _r7(ctx):
+    """opening the upstream TCP connection refreshes the idle-watchdog stamps before the task next suspends: the watchdog
+    compares the stamps with the clock whenever a connection exists, so a connection opened with stale stamps is torn down
+    at once and the query that caused it fails"""
+    P = ctx.P
+    adt = P.adts.get("erbium::dns::outquery::TcpNameserver")
+    if adt is None:
+        if ctx.config in ("default", "dns"):
+            ctx.bad("R7", "anchor:TcpNameserver", "", "upstream TCP connection state not found")
+        return
+    stamps = [f["name"] for v in adt["variants"] for f in v["fields"] if f["ty"].endswith("Instant")]
+    conn = [f["name"] for v in adt["variants"] for f in v["fields"] if "TcpStream" in f["ty"] and f["ty"].startswith("std::option::Option<")]
+    ctx.floor("R7", "watchdog stamp fields", len(stamps), 2)
+    n = 0
+    for b in P.bodies.values():
+        if "dns::outquery::TcpNameserver" not in b.id:
+            continue
+        cfg = cfg_of(b)
+        T = None
+        for bb, idx, st in b.stmts():
+            pl = st["p"]
+            if len(pl) < 2 or not conn or pl[-1] != "." + conn[0] or "rv" not in st:
+                continue
+            T = T or terms(P, b)
+            v = norm(T.rvalue(st["rv"], bb, idx))
+            if not (v[0] == "agg" and v[2] == "Some"):
+                continue
+            n += 1
+            ctx.saw(b)
+            suspend = {x for x, tm in b.terms() if tm["k"] in ("yield", "return")}
+            for fld in stamps:
+                fresh = set()
+                for sb, sidx, s2 in b.stmts():
+                    if len(s2["p"]) >= 2 and s2["p"][-1] == "." + fld and "rv" in s2:
+                        v2 = norm(T.rvalue(s2["rv"], sb, sidx))
+                        if v2[0] == "call" and str(v2[1]).endswith("Instant::now"):
+                            fresh.add(sb)
+                r = cfg.reachable_from(bb, blocked=fresh) if bb not in fresh else set()
+                ctx.check(not (r & suspend), "R7", "connection-open-refreshes:%s" % fld, ctx.where(b, st["sp"]),
+                          "after `%s = Some(..)` the task can suspend without `%s = Instant::now()`: the idle watchdog then measures the "
+                          "new connection against the previous connection's last activity" % (conn[0], fld))
+    if ctx.config in ("default", "dns"):
+        ctx.floor("R7", "places where the upstream connection is opened", n, 1)
+
+
+def _r6(ctx, cg):
+    """the task that receives (accept / recv_msg / read of the next TCP query) never runs the query handler itself:
+    the handler is reachable from it only through an async block handed to spawn, so a slow upstream or a slow client
+    cannot keep the next query from being received"""
+    P = ctx.P
+    RECV = ("::accept", "UdpSocket::recv_msg", "::read_exact", "::read_u16")
+    handler = [i for i in P.bodies if i.endswith("DnsListenerHandler::recv_in_query")]
+    if not handler:
+        ctx.bad("R6", "anchor:recv_in_query", "", "query handler entry not found")
+        return
+    n = 0
+    for b in P.bodies.values():
+        if "dns::DnsListenerHandler" not in b.id:
+            continue
+        rc = [(bb, tm) for bb, tm in b.calls() if (callee_name(tm) or "").endswith(RECV)]
+        if not rc:
+            continue
+        n += 1
+        ctx.saw(b)
+        reach = cg.reachable([b.id], stop=lambda x: x != b.id and cg.spawned.get(x, False))
+        inline = [h for h in handler if h in reach]
+        what = (callee_name(rc[0][1]) or "").rsplit("::", 1)[-1]
+        tag = b.id.split("::")[-2] if b.id.endswith("}") else b.id.split("::")[-1]
+        ctx.check(not inline, "R6", "receiver-hands-queries-to-their-own-task:%s:%s" % (tag, what), ctx.where(b, rc[0][1]["sp"]),
+                  "the function that waits for the next query/connection reaches the query handler without passing through a spawned "
+                  "task: one slow query (or a client that connects and sends nothing) keeps every later one from being received")
+        if what == "accept":
+            # nor may the accepting task read from the connection it accepted
+            readers = [x for x in reach if x != b.id and x in P.bodies and any(
+                (callee_name(tm) or "").endswith(("::read_exact", "::read_u16", "::read")) for _, tm in P.bodies[x].calls())]
+            ctx.check(not readers, "R6", "acceptor-does-not-read-connections-itself:%s" % tag, ctx.where(b, rc[0][1]["sp"]),
+                      "the accept loop reads from an accepted connection in its own task (%s): a client that connects and sends nothing "
+                      "stops every later connection from being accepted" % ", ".join(r.split("::")[-2] for r in readers[:2]))
+    ctx.floor("R6", "receiving functions", n, 3)
 
 
 def _r1_r3(ctx, cg):
